@@ -932,6 +932,12 @@ impl World {
                     }
                 }
                 Step::Flush => self.flush().await,
+                Step::FailWait(i, code) => {
+                    let w: Vec<u64> = self.shared.lock().unwrap().pending.iter().filter(|r| r.method == "waitsendpay").map(|r| r.uid).collect();
+                    if !w.is_empty() {
+                        self.fail_rpc(w[crate::gen::pick(i, w.len())], code);
+                    }
+                }
                 Step::SyncWarning(on) => {
                     self.shared.lock().unwrap().node.sync_warning = on;
                 }
